@@ -191,7 +191,12 @@ func (c *FeeController) ComputeFeesToDistribute(
 				fees.Values,
 				actiontypes.RecipientAmount{Recipient: addr, Amount: sdk.NewCoins(fee)},
 			)
-			fees.Total = fees.Total.Add(feeAmount)
+			// The fee amounts are user provided and their sum can exceed the
+			// maximum integer size, in which case Add would panic.
+			fees.Total, err = fees.Total.SafeAdd(feeAmount)
+			if err != nil {
+				return nil, errorsmod.Wrap(err, "total fees overflow")
+			}
 		}
 	}
 
